@@ -5,6 +5,7 @@
 -/
 import Upnp.Proto
 import Upnp.Model.C18Cache
+import Upnp.Model.C18Etree
 namespace Upnp.Drv.C18
 open Upnp Upnp.Proto Upnp.C18
 
@@ -53,6 +54,45 @@ def parseEv : List String → Option Ev
   | "raised" :: t :: _ => t.toNat?.map .raised
   | _ => none
 
+/-! ### description documents: tree tokens → `Elem`, model value → canonical text -/
+
+def strOf (t : String) : Str := ((tokStr t).getD "?").toList
+
+mutual
+/-- prefix form: `( tag nattrs (k v)* text|~ nchildren child* )` -/
+partial def parseElem : List String → Option (Elem × List String)
+  | "(" :: tag :: na :: rest => do
+      let n ← na.toNat?
+      let (attrs, rest) ← parseAttrs n rest
+      match rest with
+      | text :: nc :: rest => do
+          let m ← nc.toNat?
+          let (kids, rest) ← parseElems m rest
+          match rest with
+          | ")" :: rest => some (.mk (strOf tag) attrs (if text = "~" then none else some (strOf text)) kids, rest)
+          | _ => none
+      | _ => none
+  | _ => none
+partial def parseElems : Nat → List String → Option (List Elem × List String)
+  | 0, rest => some ([], rest)
+  | n + 1, rest => do
+      let (e, rest) ← parseElem rest
+      let (es, rest) ← parseElems n rest
+      some (e :: es, rest)
+partial def parseAttrs : Nat → List String → Option (List (Str × Str) × List String)
+  | 0, rest => some ([], rest)
+  | n + 1, k :: v :: rest => do
+      let (as, rest) ← parseAttrs n rest
+      some ((strOf k, strOf v) :: as, rest)
+  | _, _ => none
+end
+
+partial def renderVal : PVal → String
+  | .none => "N"
+  | .str s => "S" ++ strTok (String.ofList s)
+  | .dict d => "D[" ++ ",".intercalate (d.map fun p => strTok (String.ofList p.1) ++ ":" ++ renderVal p.2) ++ "]"
+  | .list l => "L[" ++ ",".intercalate (l.map renderVal) ++ "]"
+
 def note (st : DSt) (n : String) : DSt := { st with corrOk := false, notes := st.notes ++ [n] }
 
 def jfeed (st : DSt) (i : Item) (what : String) : DSt :=
@@ -91,6 +131,17 @@ def stepLine (st : DSt) (toks : List String) : DSt :=
     let is := " ".intercalate rest
     let st := if ms = is then st else note st s!"obs impl[{is}] model[{ms}]"
     jfeed st (.snap (field rest "ready") (field rest "out") (field rest "pend")) s!"deadlock {is}"
+  | "doc" :: id :: impl :: tree =>
+    -- the implementation's `_description_xml_to_dict` on this document vs the Lean model of etree_to_dict
+    match parseElem tree with
+    | some (e, []) =>
+      let mres := match descriptionOf e with
+        | some v => renderVal v
+        | none => "ASSERT"
+      let st := if mres = impl then st else note st s!"doc {id} impl[{impl}] model[{mres}]"
+      -- a conversion that raises is a violation: the outcome must be a dictionary or absence
+      if impl.startsWith "RAISES" then { st with jm := none, jnote := [s!"judge:conversion-raises doc {id} {impl}"] } else st
+    | _ => note st s!"bad-doc {id}"
   | _ => note st s!"bad-line {" ".intercalate toks}"
 
 def main : IO UInt32 := do
